@@ -24,11 +24,6 @@ func NewMemoryHeightIterator(dataset map[string]string, start string, end string
 			return &MemoryHeightIterator{endIdx: -1, startIdx: 1}
 		}
 	}
-	if start > end {
-		tmp := start
-		start = end
-		end = tmp
-	}
 	if len(sortedKeys) == 0 {
 		sortedKeys = make([]string, 0, len(dataset))
 		for k, _ := range dataset {
